@@ -122,14 +122,15 @@ def atom_of(v: Any) -> Atom:
 class SymEnv:
     """Resolves names of one function to symbolic terms."""
 
-    def __init__(self, func: ast.AST, overrides: Optional[Dict[str, Any]] = None):
+    def __init__(self, func: ast.AST, overrides: Optional[Dict[str, Any]] = None, parent: Optional["SymEnv"] = None):
         self.func = func
+        self.parent = parent
         self.over = dict(overrides or {})
         self._busy: set = set()
         self.params = [a.arg for a in getattr(func, "args", ast.arguments(posonlyargs=[], args=[], kwonlyargs=[], kw_defaults=[], defaults=[])).args]
 
     def with_(self, **kw: Any) -> "SymEnv":
-        e = SymEnv(self.func, {**self.over, **kw})
+        e = SymEnv(self.func, {**self.over, **kw}, self.parent)
         return e
 
     # ---- names ---------------------------------------------------------------
@@ -140,6 +141,8 @@ class SymEnv:
             return Aff.of(("var", name))
         binds = astq.assignments(self.func, name)
         if not binds:
+            if self.parent is not None:
+                return self.parent.name(name)
             if name in self.params:
                 return Aff.of(("param", name))
             return Aff.of(("global", name))
@@ -183,6 +186,15 @@ class SymEnv:
                 base = atom_of(self.ev(it.args[0]))
                 idx = Aff.of(("index", base, id(loop)))
                 return ("tuple", idx, Aff.of(("item", atom_of(idx), base)))
+            if f == "combinations" and len(it.args) == 2 and isinstance(it.args[0], ast.Call) and astq.callee_name(it.args[0]) == "enumerate" and isinstance(it.args[0].func, ast.Name) and it.args[0].args and isinstance(it.args[1], ast.Constant) and isinstance(it.args[1].value, int) and len(it.args[0].args) == 1:
+                # combinations(enumerate(X), r) == ((i, X[i]) for i in c) for c in combinations(range(len(X)), r)
+                base = atom_of(self.ev(it.args[0].args[0]))
+                src = ("elem", ("call", "itertools.combinations", ("call", "range", ("len", base)), ("const", it.args[1].value)), id(loop))
+                out = []
+                for k in range(it.args[1].value):
+                    idx = Aff.of(("item", k, src))
+                    out.append(("tuple", idx, Aff.of(("item", atom_of(idx), base))))
+                return ("tuple",) + tuple(out)
             if f == "reversed" and isinstance(it.func, ast.Name) and it.args:
                 return self.iter_elem(it.args[0], loop)
             if f == "zip" and isinstance(it.func, ast.Name):
